@@ -369,6 +369,27 @@ pub fn run(tier: &str, seed: u64, outdir: &str, extra: &[String]) {
                     }
                 }
             }
+            // (2b) ALPH payloads from the legal-stream generator of C01 (features libwebp's alpha encoder never emits: any transform
+            //      order, colour indexing followed by predictor / colour transforms, colour cache, meta codes, simple codes, ...):
+            //      the headerless form is the generated stream without its 5 header bytes; alpha = green channel, any filter
+            {
+                use crate::gen_vp8l;
+                let mut gp = gen_vp8l::Params::full();
+                gp.deep = false; gp.strips = false; gp.max16384 = false; gp.max_dim = 24;
+                for _ in 0..(if tier == "thorough" { 24 } else { 12 }) {
+                    let mut r = rng.fork();
+                    let g = gen_vp8l::generate(r.next(), &gp, false);
+                    let (w, h) = (g.width as usize, g.height as usize);
+                    if g.payload.len() <= 5 || w * h > 4096 { continue; }
+                    let Some(vp8) = vp8_payload(&mut r, w, h, &mut cx.feat) else { continue };
+                    let filter = r.below(4) as u8;
+                    let mut alph = vec![(filter << 2) | 1u8];
+                    alph.extend_from_slice(&g.payload[5..]);
+                    cx.feat.inc(&format!("alph_header.generated_stream.filter{}", filter));
+                    let f = rw::extended_vp8(rw::VP8X_ALPHA, w, h, Some(&alph), &vp8, &[]);
+                    cx.still("muxed_vp8x_alph_generated_stream", &f, None, true);
+                }
+            }
             // (3) container variants without transparency data
             for _ in 0..8 {
                 let mut r = rng.fork();
